@@ -38,6 +38,7 @@ pub fn run_op(parts: &[&str]) -> String {
   match parts[0] {
     "enc" => enc(parts),
     "dec" => dec(parts),
+    "rt" => rt(parts),
     _ => "bad-op".into(),
   }
 }
@@ -217,4 +218,102 @@ fn dec(p: &[&str]) -> String {
     }
     _ => "bad-op".into(),
   }
+}
+
+/// Implementation-side oracle for C03 (independent of the Lean model):
+/// `rt <batch> <cuts> <max>` — every encoder yields the same bytes with the RFC header shape, and every
+/// decoder, under the given segmentation, returns exactly the input frames.
+fn rt(p: &[&str]) -> String {
+  let spec = parse_batch(p[1]);
+  let cuts = p[2];
+  let max: i64 = p[3].parse().unwrap();
+  let flat: Vec<Msg> = spec.iter().flatten().cloned().collect();
+  let want = show_frames(&flat);
+
+  // --- encoders ---
+  let mut by_codec = Vec::new();
+  let mut by_hdronly = Vec::new();
+  let mut by_split = Vec::new();
+  let mut expect = Vec::new(); // RFC 23 header shape, computed here
+  for m in &flat {
+    let data = m.data().unwrap_or(&[]);
+    let fl = (m.is_more() as u8) | ((m.is_command() as u8) << 2);
+    if data.len() <= 255 {
+      expect.push(fl);
+      expect.push(data.len() as u8);
+    } else {
+      expect.push(fl | 2);
+      expect.extend_from_slice(&(data.len() as u64).to_be_bytes());
+    }
+    expect.extend_from_slice(data);
+
+    let mut c = ZmtpCodec::new();
+    let mut dst = BytesMut::new();
+    c.encode(m.clone(), &mut dst).unwrap();
+    by_codec.extend_from_slice(&dst);
+    let mut dst = BytesMut::new();
+    c.encode_header_only(m, &mut dst).unwrap();
+    by_hdronly.extend_from_slice(&dst);
+    by_hdronly.extend_from_slice(data);
+    let mut f = VNullFramer::new(-1, 8, 4096);
+    let (h, pl) = f.write_msg_split(m.clone()).unwrap();
+    by_split.extend_from_slice(&h);
+    if let Some(pl) = pl {
+      by_split.extend_from_slice(&pl);
+    }
+  }
+  let fbs: Vec<FrameBatch> = spec.iter().cloned().map(to_frame_batch).collect();
+  let mut e = VFrameEncoder::new(64, 1024);
+  let by_contig = e.frame_contiguous(&fbs).unwrap().to_vec();
+  let mut by_vect = Vec::new();
+  for c in e.frame_vectored(&fbs).unwrap() {
+    by_vect.extend_from_slice(&c);
+  }
+  for (name, b) in [
+    ("codec", &by_codec),
+    ("hdronly", &by_hdronly),
+    ("split", &by_split),
+    ("contig", &by_contig),
+    ("vect", &by_vect),
+  ] {
+    if *b != expect {
+      return format!("ORACLE-FAIL encoder={} got={} want={}", name, summ(b), summ(&expect));
+    }
+  }
+
+  // --- decoders ---
+  let hexed = format!("h{}", hex::encode(&expect));
+  let ms = max.to_string();
+  let checks: Vec<(&str, Vec<&str>)> = vec![
+    ("buffer", vec!["dec", "buffer", &ms, &hexed, cuts]),
+    ("rdbytes", vec!["dec", "rdbytes", &ms, &hexed, cuts]),
+    ("slice", vec!["dec", "slice", &ms, &hexed]),
+    ("bytes", vec!["dec", "bytes", &ms, &hexed]),
+    ("codec", vec!["dec", "codec", "0", &hexed, cuts]),
+    ("codec-prefix", vec!["dec", "codec", "1", &hexed, cuts]),
+  ];
+  let want_line = format!("more {} left=0", want);
+  for (name, args) in checks {
+    let got = dec(&args);
+    if got != want_line {
+      return format!("ORACLE-FAIL decoder={} got=[{}] want=[{}]", name, got, want_line);
+    }
+  }
+  // peek walks the stream frame by frame
+  let parser = ZmtpManualParser::new(max);
+  let mut pos = 0usize;
+  let mut n = 0usize;
+  while pos < expect.len() {
+    match parser.peek_frame_len(&expect[pos..]) {
+      Ok(Some(t)) if t > 0 => {
+        pos += t;
+        n += 1;
+      }
+      other => return format!("ORACLE-FAIL decoder=peek at={} got={:?}", pos, other.map_err(|_| "err")),
+    }
+  }
+  if pos != expect.len() || n != flat.len() {
+    return format!("ORACLE-FAIL decoder=peek end={} frames={}", pos, n);
+  }
+  format!("rt ok n={} len={}", flat.len(), expect.len())
 }
